@@ -150,6 +150,19 @@ struct FfiCase {
 
 /// start a server through the C ABI; returns it with its address and the auth-call log
 fn ffi_server(rt: &FfiRuntime, variant: Variant, filter: &FilterSpec, ip: &str, points: Vec<DbOp>, wstate: Arc<Mutex<WriteState>>, set: [bool; 4]) -> Result<(FfiServer, SocketAddr, Arc<Mutex<AuthLog>>), String> {
+    // the port is chosen here and bound by the server: when somebody else was handed it in between,
+    // creation fails and is tried again with another port
+    let mut last = String::new();
+    for _ in 0..8 {
+        match ffi_server_once(rt, variant, filter, ip, points.clone(), wstate.clone(), set) {
+            Ok(x) => return Ok(x),
+            Err(e) => last = e,
+        }
+    }
+    Err(last)
+}
+
+fn ffi_server_once(rt: &FfiRuntime, variant: Variant, filter: &FilterSpec, ip: &str, points: Vec<DbOp>, wstate: Arc<Mutex<WriteState>>, set: [bool; 4]) -> Result<(FfiServer, SocketAddr, Arc<Mutex<AuthLog>>), String> {
     let parts = filter_parts(filter);
     let filt = ffi_filter(&parts).map_err(|rc| format!("address_filter_create/add -> {rc}"))?;
     let (wh, _d) = write_handler(wstate, set);
@@ -1124,6 +1137,36 @@ struct Peer {
     requests: Arc<Mutex<Vec<Vec<u8>>>>,
     accepts: Arc<Mutex<Vec<Instant>>>,
     stop: Arc<Mutex<bool>>,
+    /// connections that ended (EOF or error seen by the peer, or closed by the peer itself)
+    closed: Arc<Mutex<usize>>,
+}
+
+impl Peer {
+    /// wait until the peer thread has recorded `n` request frames (it polls its sockets, so a frame
+    /// the client has already written may not have been recorded yet when the client's call returns)
+    fn wait_requests(&self, n: usize, ms: u64) -> Vec<Vec<u8>> {
+        let deadline = Instant::now() + Duration::from_millis(ms);
+        while Instant::now() < deadline {
+            if self.requests.lock().unwrap().len() >= n {
+                break;
+            }
+            std::thread::sleep(Duration::from_micros(300));
+        }
+        self.requests.lock().unwrap().clone()
+    }
+
+    /// wait until `n` connections have ended: afterwards the client task that owned the socket has
+    /// let go of it and cannot emit protocol log lines any more
+    fn wait_closed(&self, n: usize, ms: u64) -> bool {
+        let deadline = Instant::now() + Duration::from_millis(ms);
+        while Instant::now() < deadline {
+            if *self.closed.lock().unwrap() >= n {
+                return true;
+            }
+            std::thread::sleep(Duration::from_micros(300));
+        }
+        false
+    }
 }
 
 fn good_reply_for(req: &[u8]) -> Vec<u8> {
@@ -1155,6 +1198,8 @@ fn spawn_peer(behaviour: PeerBehaviour, close_after_accept: bool) -> Peer {
     let accepts = Arc::new(Mutex::new(vec![]));
     let stop = Arc::new(Mutex::new(false));
     let (r2, a2, s2) = (requests.clone(), accepts.clone(), stop.clone());
+    let closed = Arc::new(Mutex::new(0usize));
+    let c2 = closed.clone();
     std::thread::spawn(move || {
         let mut conns: Vec<TcpStream> = vec![];
         let mut bufs: Vec<Vec<u8>> = vec![];
@@ -1217,11 +1262,12 @@ fn spawn_peer(behaviour: PeerBehaviour, close_after_accept: bool) -> Peer {
             for i in dead.into_iter().rev() {
                 conns.remove(i);
                 bufs.remove(i);
+                *c2.lock().unwrap() += 1;
             }
             std::thread::sleep(Duration::from_micros(200));
         }
     });
-    Peer { addr, requests, accepts, stop }
+    Peer { addr, requests, accepts, stop, closed }
 }
 
 impl Drop for Peer {
@@ -1299,11 +1345,14 @@ extern "C" fn cb_failure(err: c_int, ctx: *mut c_void) {
 #[derive(Default)]
 struct StateLog {
     states: Vec<c_int>,
+    times: Vec<Instant>,
 }
 
 extern "C" fn on_client_state(state: c_int, ctx: *mut c_void) {
     let c: &Ctx<StateLog> = unsafe { ctx_ref(ctx) };
-    c.state.lock().unwrap().states.push(state);
+    let mut g = c.state.lock().unwrap();
+    g.states.push(state);
+    g.times.push(Instant::now());
 }
 
 struct FfiClient {
@@ -1491,7 +1540,7 @@ fn c18_client_case(rt: &FfiRuntime, op: Op, behaviour: PeerBehaviour, unit: u8, 
     let (rc, cbs, destroyed) = fc.call(op, unit, timeout_ms, start, count);
     let comps = wait_completion(&cbs, timeout_ms + 3000);
     let elapsed = t0.elapsed();
-    let ffi_req = peer_a.requests.lock().unwrap().clone();
+    let ffi_req = peer_a.wait_requests(1, 3000);
     // Rust API
     let peer_b = spawn_peer(behaviour, false);
     let (ch, states) = rust_client(peer_b.addr, 4, (1000, 1000), rodbus::DecodeLevel::nothing());
@@ -1500,7 +1549,7 @@ fn c18_client_case(rt: &FfiRuntime, op: Op, behaviour: PeerBehaviour, unit: u8, 
         return vec![("MACHINERY:rust-client-did-not-connect".into(), format!("{:?}", states.lock().unwrap()))];
     }
     let rust = rust_call(&ch, op, unit, timeout_ms, start, count);
-    let rust_req = peer_b.requests.lock().unwrap().clone();
+    let rust_req = peer_b.wait_requests(1, 3000);
     st.observe(&(op, behaviour, unit, &rust.as_ref().map_err(|e| format!("{e:?}"))));
     st.class(match &rust {
         Ok(_) => "outcome:success",
@@ -1699,21 +1748,27 @@ fn c18_client_part(rt: &FfiRuntime, thorough: bool) -> Stats {
     let mut cases: Vec<(Op, PeerBehaviour, u8, u64)> = vec![];
     for (i, op) in OPS.iter().enumerate() {
         for unit in [0u8, 1, 255] {
-            cases.push((*op, PeerBehaviour::Good, unit, 1000));
+            cases.push((*op, PeerBehaviour::Good, unit, 10_000));
         }
         cases.push((*op, PeerBehaviour::Good, 7, 4_294_967_295));
-        cases.push((*op, PeerBehaviour::BadReply, 1, 1000));
-        cases.push((*op, PeerBehaviour::BadFrame, 1, 1000));
-        cases.push((*op, PeerBehaviour::Close, 1, 1000));
-        cases.push((*op, PeerBehaviour::Silent, 1, if i % 2 == 0 { 1 } else { 60 }));
+        cases.push((*op, PeerBehaviour::BadReply, 1, 10_000));
+        cases.push((*op, PeerBehaviour::BadFrame, 1, 10_000));
+        cases.push((*op, PeerBehaviour::Close, 1, 10_000));
+        cases.push((*op, PeerBehaviour::Silent, 1, [1, 60, 1000][i % 3]));
         let codes: Vec<u8> = if thorough || i == 0 || i == 5 { (0..=255).collect() } else { vec![0, 1, 2, 3, 4, 5, 6, 7, 8, 9, 10, 11, 12, 0x80, 0xFF] };
         for c in codes {
-            cases.push((*op, PeerBehaviour::Exception(c), 1, 1000));
+            cases.push((*op, PeerBehaviour::Exception(c), 1, 10_000));
         }
     }
     for (k, (op, beh, unit, timeout)) in cases.iter().enumerate() {
         st.evaluations += 1;
-        let problems = c18_client_case(rt, *op, *beh, *unit, *timeout, &mut st);
+        let mut problems = c18_client_case(rt, *op, *beh, *unit, *timeout, &mut st);
+        // a verdict that rests on an upper bound in real time must repeat three times
+        for _ in 0..2 {
+            if problems.iter().any(|(s, _)| s == "timeout-not-forwarded") {
+                problems = c18_client_case(rt, *op, *beh, *unit, *timeout, &mut st);
+            }
+        }
         if k % 101 == 0 {
             st.sample(json!({"op": format!("{op:?}"), "peer": format!("{beh:?}"), "unit": unit, "timeout_ms": timeout}));
         }
@@ -1729,7 +1784,8 @@ fn c18_call_errors(rt: &FfiRuntime) -> Stats {
     let mut st = Stats::default();
     // (a) no connection / disabled: the call is accepted, the callback reports NoConnection
     {
-        let port = free_port("127.0.0.1");
+        let refusing = crate::ffiutil::RefusingPort::new();
+        let port = refusing.port;
         let addr: SocketAddr = format!("127.0.0.1:{port}").parse().unwrap();
         let fc = FfiClient::new(rt, addr, 4, (50, 50), decode_nothing());
         for enabled in [false, true] {
@@ -1752,10 +1808,20 @@ fn c18_call_errors(rt: &FfiRuntime) -> Stats {
         // listener: same-named states in the same order as the Rust listener on the same script
         let (ch, states) = rust_client(addr, 4, (50, 50), rodbus::DecodeLevel::nothing());
         let _ = crate::net::rt().block_on(ch.enable());
-        std::thread::sleep(Duration::from_millis(30));
+        // both clients must have been seen failing to connect before they are disabled (poll with a
+        // ceiling: a fixed sleep is too short on a loaded machine)
+        let seen = |f: &dyn Fn() -> bool| {
+            let t = Instant::now();
+            while !f() && t.elapsed() < Duration::from_secs(5) {
+                std::thread::sleep(Duration::from_millis(1));
+            }
+        };
+        seen(&|| states.lock().unwrap().iter().any(|s| s == "WaitAfterFailedConnect"));
+        seen(&|| fc.states.lock().unwrap().states.contains(&3));
         let _ = crate::net::rt().block_on(ch.disable());
         unsafe { ffi::rodbus_client_channel_disable(fc.ch) };
-        std::thread::sleep(Duration::from_millis(30));
+        wait_rust_state(&states, "Disabled", 5000);
+        fc.wait_state(0, 5000);
         let ffi_states: Vec<String> = fc.states.lock().unwrap().states.iter().map(|s| CLIENT_STATE_NAMES.get(*s as usize).unwrap_or(&"?").to_string()).collect();
         let rust_states = states.lock().unwrap().clone();
         // both must visit Disabled, Connecting, WaitAfterFailedConnect and end Disabled
@@ -1788,7 +1854,13 @@ fn c18_call_errors(rt: &FfiRuntime) -> Stats {
                 rcs.push(rc);
                 handles.push((cbs, d));
             }
-            std::thread::sleep(Duration::from_millis(1500));
+            {
+                let t = Instant::now();
+                while handles.iter().any(|(cbs, d)| cbs.lock().unwrap().completions.is_empty() || *d.lock().unwrap() == 0) && t.elapsed() < Duration::from_secs(8) {
+                    std::thread::sleep(Duration::from_millis(1));
+                }
+                std::thread::sleep(Duration::from_millis(20));
+            }
             st.evaluations += 4;
             st.class("call:queue-full");
             st.observe(&rcs);
@@ -1838,6 +1910,10 @@ fn c18_call_errors(rt: &FfiRuntime) -> Stats {
             (Op::WriteRegs, 0xFFFF, 2, perr(ffi::ParamError::InvalidRequest)),
         ] {
             let (rc, cbs, d) = fc.call(op, 1, 200, s, c);
+            let t_d = Instant::now();
+            while *d.lock().unwrap() == 0 && t_d.elapsed() < Duration::from_secs(2) {
+                std::thread::sleep(Duration::from_micros(300));
+            }
             std::thread::sleep(Duration::from_millis(5));
             let comps = cbs.lock().unwrap().completions.clone();
             let dn = *d.lock().unwrap();
@@ -1935,6 +2011,14 @@ fn c18_enums(rt: &FfiRuntime) -> Stats {
                 if rc != OK || !kinds(&c).is_empty() {
                     st.violation(Violation { signature: "set-decode-level".into(), summary: format!("after set_decode_level(nothing): rc {rc}, lines {:?}", kinds(&c)), replay: json!({"kind": "c18-enums"}) });
                 }
+                // the capture is process-wide: both channels of this cell must be gone (their
+                // sockets closed, seen by the peers) before the next cell starts capturing
+                drop(fc);
+                drop(ch);
+                if !peer.wait_closed(1, 5000) || !peer2.wait_closed(1, 5000) {
+                    st.violation(Violation { signature: "MACHINERY:client-task-did-not-end".into(), summary: format!("decode levels ({app},{frame},{phys}): a destroyed channel kept its connection for 5 s"), replay: json!({}) });
+                    return st;
+                }
             }
         }
     }
@@ -1968,20 +2052,77 @@ fn c18_enums(rt: &FfiRuntime) -> Stats {
         }
         drop(fc);
     }
-    // retry strategy: the delay configured through the C ABI is the delay waited (peer closes at once)
+    // retry strategy: the delay configured through the C ABI is the delay waited (peer closes at once).
+    // The lower bound holds under any load; the upper bound is judged on the smallest gap and must
+    // fail three times in a row (scheduling latency only ever lengthens a gap)
     {
-        let peer = spawn_peer(PeerBehaviour::Good, true);
-        let fc = FfiClient::new(rt, peer.addr, 4, (150, 150), decode_nothing());
-        unsafe { ffi::rodbus_client_channel_enable(fc.ch) };
-        std::thread::sleep(Duration::from_millis(700));
-        unsafe { ffi::rodbus_client_channel_disable(fc.ch) };
-        let acc = peer.accepts.lock().unwrap().clone();
+        let mut last = vec![];
+        let mut ok = false;
+        for _attempt in 0..3 {
+            let peer = spawn_peer(PeerBehaviour::Good, true);
+            let fc = FfiClient::new(rt, peer.addr, 4, (150, 150), decode_nothing());
+            unsafe { ffi::rodbus_client_channel_enable(fc.ch) };
+            let t = Instant::now();
+            while peer.accepts.lock().unwrap().len() < 5 && t.elapsed() < Duration::from_secs(6) {
+                std::thread::sleep(Duration::from_millis(1));
+            }
+            unsafe { ffi::rodbus_client_channel_disable(fc.ch) };
+            let acc = peer.accepts.lock().unwrap().clone();
+            let gaps: Vec<u128> = acc.windows(2).map(|w| (w[1] - w[0]).as_millis()).collect();
+            last = gaps.clone();
+            if gaps.iter().any(|g| *g < 145) {
+                // too early is wrong whatever the load
+                break;
+            }
+            if gaps.iter().min().map(|g| *g <= 400).unwrap_or(false) {
+                ok = true;
+                break;
+            }
+        }
         st.evaluations += 1;
         st.class("config:retry-strategy");
-        let gaps: Vec<u128> = acc.windows(2).map(|w| (w[1] - w[0]).as_millis()).collect();
-        st.observe(&gaps.len());
-        if gaps.is_empty() || gaps.iter().any(|g| *g < 145 || *g > 400) {
-            st.violation(Violation { signature: "retry-strategy-not-forwarded".into(), summary: format!("min=max=150 ms but reconnect gaps were {gaps:?} ms"), replay: json!({"kind": "c18-enums"}) });
+        st.observe(&last.len());
+        if !ok {
+            st.violation(Violation { signature: "retry-strategy-not-forwarded".into(), summary: format!("min=max=150 ms but reconnect gaps were {last:?} ms"), replay: json!({"kind": "c18-enums"}) });
+        }
+    }
+    // retry strategy, failed connects: with min 100 ms and max 400 ms the attempts on a refusing port
+    // are 100, 200, 400, 400 ms apart (observed as the instants of the Connecting callbacks)
+    {
+        let expected: [u128; 4] = [100, 200, 400, 400];
+        let mut last = vec![];
+        let mut ok = false;
+        for _attempt in 0..3 {
+            let refusing = crate::ffiutil::RefusingPort::new();
+            let addr: SocketAddr = format!("127.0.0.1:{}", refusing.port).parse().unwrap();
+            let fc = FfiClient::new(rt, addr, 4, (100, 400), decode_nothing());
+            unsafe { ffi::rodbus_client_channel_enable(fc.ch) };
+            let connecting = |fc: &FfiClient| -> Vec<Instant> {
+                let g = fc.states.lock().unwrap();
+                g.states.iter().zip(g.times.iter()).filter(|(s, _)| **s == 1).map(|(_, t)| *t).collect()
+            };
+            let t = Instant::now();
+            while connecting(&fc).len() < 5 && t.elapsed() < Duration::from_secs(8) {
+                std::thread::sleep(Duration::from_millis(1));
+            }
+            unsafe { ffi::rodbus_client_channel_disable(fc.ch) };
+            let at = connecting(&fc);
+            let gaps: Vec<u128> = at.windows(2).map(|w| (w[1] - w[0]).as_millis()).take(4).collect();
+            last = gaps.clone();
+            if gaps.len() < 4 || gaps.iter().zip(expected.iter()).any(|(g, e)| *g + 3 < *e) {
+                // too few attempts in 8 s or an attempt that came too early: wrong whatever the load
+                break;
+            }
+            if gaps.iter().zip(expected.iter()).all(|(g, e)| *g <= *e + 250) {
+                ok = true;
+                break;
+            }
+        }
+        st.evaluations += 1;
+        st.class("config:retry-strategy-doubling");
+        st.observe(&("doubling", last.len()));
+        if !ok {
+            st.violation(Violation { signature: "retry-strategy-not-forwarded:failed-connects".into(), summary: format!("min 100 ms, max 400 ms on a refusing port: attempts were {last:?} ms apart, expected [100, 200, 400, 400]"), replay: json!({"kind": "c18-enums"}) });
         }
     }
     st
@@ -1992,7 +2133,7 @@ pub fn check_c18(tier: &str) -> i32 {
         "C18",
         tier,
         "exploration",
-        "differential: every scenario runs once through the extern \"C\" functions of rodbus-ffi and once through the Rust API against identical scripted loopback peers. Client: 8 operations x outcomes {success with data, each exception code (all 256 for two operations, thorough: for all), bad reply, bad frame, timeout, connection closed} x unit ids {0,1,7,255} x timeouts {1 ms, 60 ms, 1 s, 2^32-1 ms}; request bytes must be identical, the C callback must report the same values or the same-named error (hand-written name table), on_complete+on_failure exactly once, on_destroy exactly once; calls that themselves report an error (no connection, queue full, invalid range, null channel). Server: 4 write callbacks x WriteResult {success, 9 named exceptions, raw codes, callback not set}: reply bytes equal the Rust server's with the same-named result and the callback sees exactly the sent values. Enums: all 36 decode levels (compared through the log lines both APIs emit), client states on scripted connection histories, retry strategy through behaviour. distinct = distinct (operation, peer behaviour, outcome) triples",
+        "differential: every scenario runs once through the extern \"C\" functions of rodbus-ffi and once through the Rust API against identical scripted loopback peers. Client: 8 operations x outcomes {success with data, each exception code (all 256 for two operations, thorough: for all), bad reply, bad frame, timeout, connection closed} x unit ids {0,1,7,255} x timeouts {1 ms, 60 ms, 1 s against a silent peer; 10 s and 2^32-1 ms otherwise}; request bytes must be identical, the C callback must report the same values or the same-named error (hand-written name table), on_complete+on_failure exactly once, on_destroy exactly once; calls that themselves report an error (no connection, queue full, invalid range, null channel). Server: 4 write callbacks x WriteResult {success, 9 named exceptions, raw codes, callback not set}: reply bytes equal the Rust server's with the same-named result and the callback sees exactly the sent values. Enums: all 36 decode levels (compared through the log lines both APIs emit), client states on scripted connection histories, retry strategy through behaviour. distinct = distinct (operation, peer behaviour, outcome) triples",
     );
     let thorough = rep.thorough();
     let (a, b, c, d) = on_plain_thread(|| {
@@ -2007,7 +2148,7 @@ pub fn check_c18(tier: &str) -> i32 {
     rep.phase("server write callbacks x results", b, json!({}));
     rep.phase("calls that report an error", c, json!({}));
     rep.phase("enums and configuration", d, json!({}));
-    for c in ["outcome:success", "outcome:exception", "outcome:timeout", "outcome:io", "outcome:bad-frame", "outcome:bad-response", "write-result-success", "write-result-named-exception", "write-result-raw-exception", "write-callback-not-set", "call:no-connection", "call:queue-full", "call:parameter-validation", "enum:decode-level", "enum:client-state", "config:retry-strategy"] {
+    for c in ["outcome:success", "outcome:exception", "outcome:timeout", "outcome:io", "outcome:bad-frame", "outcome:bad-response", "write-result-success", "write-result-named-exception", "write-result-raw-exception", "write-callback-not-set", "call:no-connection", "call:queue-full", "call:parameter-validation", "enum:decode-level", "enum:client-state", "config:retry-strategy", "config:retry-strategy-doubling"] {
         rep.require_class(c);
     }
     rep.exhaustive = thorough;
